@@ -8,6 +8,10 @@ ITS_EVENTS = ["contract_called", "gas_paid", "delivery_executed", "transfer_rece
 
 GW_TRACE = {"kind": "trace", "spec": "TraceGateway", "module": "Gateway", "quick": (8, 250), "thorough": (64, 600)}
 
+TOKEN_TRACE = {"kind": "trace", "spec": "TraceToken", "module": "Token", "quick": (8, 300), "thorough": (64, 800)}
+GAS_TRACE = {"kind": "trace", "spec": "TraceGas", "module": "GasService", "quick": (8, 300), "thorough": (64, 800)}
+ITS_TRACE = {"kind": "trace", "spec": "TraceITS", "module": "ITS", "quick": (8, 120), "thorough": (48, 400), "tlc_timeout": 3600}
+
 GOOD_PROOF = {"set": "s1", "sigs": ["Valid", "Valid"]}
 
 
@@ -231,7 +235,7 @@ PROPS = {
     "C12": {
         "title": "Token balances, allowances and supply follow the standard token rules",
         "policy": {"guards": ["is_minter", "amount", "expiry", "allowance", "balance", "overflow"],
-                   "fields": ["bal", "allowance", "minters"],
+                   "fields": ["bal", "allowance", "minters"], "invariants": ["NonNegative"],
                    "events": ["mint", "transfer", "burn", "approve", "set_admin", "minter_added", "minter_removed"], "rets": []},
         "jobs": [
             {"kind": "graph", "spec": "MC_C12", "cfg": "MC_C12_unit", "module": "Token", "evkinds": TOKEN_EVENTS,
@@ -244,6 +248,7 @@ PROPS = {
             {"kind": "graph", "spec": "MC_C12", "cfg": "MC_C12_roles", "module": "Token", "evkinds": TOKEN_EVENTS,
              "need": ["MintFrom/ok", "MintFrom/is_minter", "Mint/is_minter", "AddMinter/ok", "RemoveMinter/ok", "TransferOwnership/ok"],
              "control": zero_amount_control},
+            TOKEN_TRACE,
         ],
         "level_text": "TLC proves the token step rules (exact deltas, conservation of supply, non-negativity, allowance decrease and expiry, minters only, admin event names previous and new) on every transition of three finite instances (unit amounts; the i128 lattice where 2 units = i128::MAX-1; minter/owner changes) - all interleavings, no depth bound; transitions are executed against the natively registered token from /repo and balances, effective allowances of all pairs, minters and events compared. Quick replays a node cover plus a seeded sample, thorough every edge.",
         "rule": "cases = transitions of the bounded TLC instances replayed against the contract; distinct = distinct (abstract pre-state, action) pairs",
@@ -253,12 +258,13 @@ PROPS = {
     "C14": {
         "title": "The gas service holds exactly what was paid in minus what its collector paid out",
         "policy": {"guards": ["positive_amount", "negative_amount", "collector_auth", "sufficient_balance", "balance"],
-                   "fields": ["bal"], "events": ["gas_paid", "gas_added", "gas_collected", "gas_refunded"], "rets": []},
+                   "fields": ["bal"], "invariants": ["NonNegative"], "events": ["gas_paid", "gas_added", "gas_collected", "gas_refunded"], "rets": []},
         "jobs": [
             {"kind": "graph", "spec": "MC_C14", "module": "GasService", "evkinds": ["gas_paid", "gas_added", "gas_collected", "gas_refunded"],
              "need": ["PayGas/ok", "PayGas/positive_amount", "PayGas/balance", "AddGas/ok", "CollectFees/ok",
                       "CollectFees/collector_auth", "CollectFees/sufficient_balance", "Refund/ok", "Refund/collector_auth", "Refund/sufficient_balance"],
              "control": other_amount_control, "quick_edges": 25000},
+            GAS_TRACE,
         ],
         "level_text": "TLC proves the step rules (exact movement between spender/receiver and the service, per-token conservation, pay-outs only with the collector's authorisation and never beyond the holding, one event with the same token and amount, rejected calls move nothing) on every transition of a finite instance (all interleavings); the transitions are executed against the real gas service with a Stellar asset contract and the natively registered interchain token, comparing every balance of both tokens after every step.",
         "rule": "cases = transitions of the bounded TLC instance replayed against the contracts; distinct = distinct (abstract pre-state, action) pairs",
@@ -327,7 +333,7 @@ PROPS = {
         "title": "Token ids are deterministic, write-once; deployed tokens stay ITS-mintable",
         "policy": {"guards": ["already_deployed", "already_registered", "its_can_mint", "metadata"],
                    "fields": ["reg", "regTok", "tokMeta", "minters", "tokOwner", "tokSelfId", "idcheck", "bal"],
-                   "events": ["token_id_claimed"], "rets": ["DeployInterchainToken", "RegisterCanonical"]},
+                   "invariants": ["ServiceCanMint"], "events": ["token_id_claimed"], "rets": ["DeployInterchainToken", "RegisterCanonical"]},
         "jobs": [
             {"kind": "graph", "spec": "MC_C11", "cfg": "MC_C11_small", "tiers": ["quick"], "module": "ITS", "evkinds": ITS_EVENTS,
              "need": ["DeployInterchainToken/ok", "DeployInterchainToken/already_deployed", "DeployInterchainToken/metadata",
@@ -337,6 +343,7 @@ PROPS = {
              "need": ["DeployInterchainToken/ok", "DeployInterchainToken/already_deployed", "DeployInterchainToken/metadata",
                       "RegisterCanonical/ok", "RegisterCanonical/already_registered", "Deliver/ok", "Deliver/already_deployed"],
              "control": sibling_control(["name", "caller", "auth"], "salt"), "quick_edges": 12000, "max_len": 40, "workers": 12},
+            ITS_TRACE,
         ],
         "level_text": "TLC proves write-once registry, roles after every deployment (service + designated minter only, initial supply credited, metadata as requested), 'taken ids refuse' and service-mintability on every transition of a finite instance (every supply x minter combination, boundary metadata, same salt / other deployer, canonical registrations, remote deploy messages that collide or not, an inbound transfer after every deployment); transitions are executed against the real service, which deploys the repository's pinned interchain_token.wasm; the binding derives every catalogue id through the contract, checks determinism, injectivity and chain-name sensitivity, that token_address(id) is the address derived from (service, id) and that the token reports that id.",
         "rule": "cases = transitions of the bounded TLC instance replayed against the contracts; distinct = distinct (abstract pre-state, action) pairs",
@@ -353,6 +360,7 @@ PROPS = {
              "need": C04_NEED, "control": conforming_delivery_control, "quick_edges": 12000, "max_len": 40, "workers": 16},
             {"kind": "graph", "spec": "MC_C04", "cfg": "MC_C04_full", "tiers": ["thorough"], "module": "ITS", "evkinds": ITS_EVENTS,
              "need": C04_NEED, "control": conforming_delivery_control, "max_len": 40, "workers": 16, "tlc_timeout": 3600},
+            ITS_TRACE,
         ],
         "level_text": "TLC proves gate (every guard held in the pre-state of an executed delivery), exactly-once, 'rejected deliveries leave balances, registrations and the approval record untouched' and acceptance of conforming deliveries on every transition of a finite instance containing one conforming delivery of each kind and every single deviation the statement lists (approval-table deviations under tracked ids, payload / chain / address deviations under fresh ids), over trusted-chain histories; whether a mutated payload decodes is decided by Abi!Decode.  All transitions are executed against the real service, gateway, tokens and receiver contracts, with payload bytes built by the harness's own encoder.",
         "rule": "cases = transitions of the bounded TLC instance replayed against the contracts; distinct = distinct (abstract pre-state, action) pairs",
@@ -361,12 +369,13 @@ PROPS = {
     "C05": {
         "title": "Interchain transfers conserve value and announce exactly what was taken",
         "policy": {"guards": ["positive_amount", "balance", "custody", "destination_trusted", "registered", "gas_positive", "gas_balance", "its_can_mint", "receiver_ok"],
-                   "fields": ["bal", "gas"], "events": ["contract_called", "gas_paid", "transfer_received", "token_executed"], "rets": []},
+                   "fields": ["bal", "gas"], "invariants": ["NonNegative"], "events": ["contract_called", "gas_paid", "transfer_received", "token_executed"], "rets": []},
         "jobs": [
             {"kind": "graph", "spec": "MC_C05", "cfg": "MC_C05_small", "tiers": ["quick"], "module": "ITS", "evkinds": ITS_EVENTS,
              "need": C05_NEED, "control": other_amount_control, "max_len": 40, "workers": 16},
             {"kind": "graph", "spec": "MC_C05", "cfg": "MC_C05_full", "tiers": ["thorough"], "module": "ITS", "evkinds": ITS_EVENTS,
              "need": C05_NEED + ["MinterMint/ok"], "control": other_amount_control, "max_len": 40, "workers": 16, "tlc_timeout": 3600},
+            ITS_TRACE,
         ],
         "level_text": "TLC proves custody = locked - released >= 0 with the canonical token's supply conserved, service-deployed supply changing only by outbound burns, inbound mints, the initial supply and minters' own mints, exact debit / gas / announcement on every successful outbound transfer (trusted destination, positive amount), exact credit inbound, and the frame rule, on every transition of a finite instance (all interleavings; every outbound transfer costs gas); the transitions are executed against the real service, gateway, gas service, a Stellar asset contract and the pinned interchain token; the announced payload bytes are decoded by the harness's own codec and compared field by field.",
         "rule": "cases = transitions of the bounded TLC instance replayed against the contracts; distinct = distinct (abstract pre-state, action) pairs",
@@ -382,6 +391,7 @@ PROPS = {
              "need": C18_NEED, "control": sibling_control(["name", "caller", "salt", "tok", "spender", "auth", "gas"], "dest"), "max_len": 40, "workers": 16},
             {"kind": "graph", "spec": "MC_C18", "cfg": "MC_C18_full", "tiers": ["thorough"], "module": "ITS", "evkinds": ITS_EVENTS,
              "need": C18_NEED + ["DeployRemoteCanonical/encodable"], "control": sibling_control(["name", "caller", "salt", "tok", "spender", "auth", "gas"], "dest"), "max_len": 40, "workers": 16},
+            ITS_TRACE,
         ],
         "level_text": "TLC proves 'announces exactly the id derived from the caller's (deployer, salt) or the token address with the token's actual metadata and no minter, only for a registered token, a trusted destination, representable metadata and a paid, authorised gas amount; moves nothing but the gas; failures change nothing' on every transition of a finite instance (gas is finite); transitions are executed against the real service with a Stellar asset contract and a metadata-forging canonical token; the announced bytes are decoded by the harness's own codec.",
         "rule": "cases = transitions of the bounded TLC instance replayed against the contracts; distinct = distinct (abstract pre-state, action) pairs",
@@ -408,7 +418,7 @@ PROPS = {
             {"kind": "graph", "spec": "MC_C15", "cfg": "MC_C15_%s" % t, "module": "Upgrade", "evkinds": ["upgraded", "ownership_transferred"],
              "need": ["Upgrade/ok", "Upgrade/role_auth", "Migrate/ok", "Migrate/role_auth", "UpgraderUpgrade/upgrade_auth", "UpgraderUpgrade/migrate_auth", "TransferOwnership/ok"]}
             for t in ["gateway", "gas", "operators", "its", "token"]
-        ],
+        ] + [GW_TRACE, TOKEN_TRACE, GAS_TRACE, ITS_TRACE],
         "level_text": "TLC proves 'succeeds only with the current holder among the authorisers; the role moves only by the holder's transfer and then belongs to the named successor; refused calls change nothing' on every transition of ten finite instances (gateway, gas service, operators, token, token service; upgrade / migrate / Upgrader on each of the five production contracts): every administrative entry point x every principal as sole authoriser (current holder, former holder, holder of another role, beneficiary, stranger) and nobody x every role-transfer history over three addresses. All transitions are executed against the real contracts with exactly the stated principal's authorisation entry installed.",
         "rule": "cases = transitions of the bounded TLC instances replayed against the contracts; distinct = distinct (role state, entry point, authoriser) tuples",
         "assumptions": ["soroban-env-host test mode implements require_auth as on chain; an authorisation entry is installed only for the named principal and only for the exact call tree"],
@@ -430,6 +440,7 @@ PROPS = {
             {"kind": "graph", "spec": "MC_C17", "module": "Operators", "suffix": "_c07",
              "evkinds": ["probe_call", "operator_added", "operator_removed", "ownership_transferred"],
              "need": ["Execute/ok", "Execute/named_auth"]},
+            GW_TRACE, TOKEN_TRACE, GAS_TRACE, ITS_TRACE,
         ],
         "level_text": "TLC proves 'a successful spending / burning / gas-paying / sending / consuming / deploying / executing call carries the authorisation of the address it names (or that address is the calling contract); refused calls change nothing' on every transition of five finite instances (token, gas service, gateway, token service + example app, operators): every such entry point x authoriser in {the named address, the counterparty or recipient, the contract owner, a stranger, nobody}, in states with and without allowances / registrations. All transitions are executed against the real contracts with exactly the stated principal's authorisation entries (full call trees) installed.",
         "rule": "cases = transitions of the bounded TLC instances replayed against the contracts; distinct = distinct (state, entry point, authoriser) tuples",
